@@ -66,6 +66,14 @@ def _non_herm_structured(rng, n):
         if not np.any(d[0, 1, 1:]):
             d[0, 1, 1] = d[1, 0, 1] = 0.5
         out["one_pair_not_conjugated"] = refq.qa(d)
+        # widely graded entries: one huge (real, diagonal) entry next to an O(1) violation in the small entries - a test that measures
+        # the asymmetry against the norm of the whole matrix lets it pass
+        for big in (4e6, 1e8, 1e12):
+            d = c.copy()
+            d[0, 0] = [big, 0.0, 0.0, 0.0]
+            i, j = (n - 2, n - 1)
+            d[i, j] = d[i, j] + np.array([3.0, 4.0, -2.0, 1.0])
+            out[f"graded_diag_{big:g}_small_entries_asymmetric"] = refq.qa(d)
         G = refq.randq(rng, n, n)
         out["transpose_symmetric"] = refq.qa(0.5 * (refq.fa(G) + np.swapaxes(refq.fa(G), 0, 1)))   # A = A^T, not A^H
     return out
